@@ -98,6 +98,12 @@ def corpus():
             if tr == "tcp":
                 out.append(case_dict(kind, tr, True, 2, "c1:r c2:r c3:g p3 c4:r c5:s z5 c6:r p3".split()))
                 out.append(case_dict(kind, tr, False, 2, "c1:g c2:r c3:r p1 z1 c4:r c5:g p5 X".split()))
+        # pool: a departed client's entry is keyed by its descriptor NUMBER; its on_disconnect blocks, a new client is given
+        # the number meanwhile, the hook returns: only the departed client's own entry may go
+        if tr == "tcp":
+            for bye in ("a1", "g1"):
+                out.append(case_dict("pool", tr, False, 2, ("c1:g m1 c2:g p2 %s c3:g:1 p3 h1 p3 p2 g3 X" % bye).split()))
+            out.append(case_dict("pool", tr, False, 2, "c1:g m1 a1 h1 c2:g:1 p2 X".split()))
         # one-shot: a second connection waits in the listen queue and is reset when the server closes itself
         out.append(case_dict("oneshot", tr, False, 1, "c1:g c2:g p1 a1 c3:g".split()))
         out.append(case_dict("oneshot", tr, True, 1, "c1:b c2:g".split()))
@@ -269,9 +275,10 @@ def oracle_case(case, known=(), ceiling=servers.CEILING):
     try:
         closed = False
         served_first = None
+        armed, in_hook = set(), set()      # on_disconnect armed to block / departed and still inside that hook
         for i, tok in enumerate(case["ops"]):
             t = tok[0]
-            if t not in "cpgaXkz":
+            if t not in "cpgaXkzmh":
                 continue           # not an operation of this property
             obs = sess.do(tok)
             where = "after op %d (%s): " % (i, tok)
@@ -310,7 +317,23 @@ def oracle_case(case, known=(), ceiling=servers.CEILING):
                 return where + "a closed server answered client %s" % tok[1:], sig
             if closed or obs == "skip":
                 continue
-            if t in "gaz" or (t == "c" and tok[-2:] in (":b", ":r")):
+            if t == "h":
+                # the worker is back from the departed client's on_disconnect and has dropped "its" descriptor: every other
+                # client is still connected and served (a round trip through the pool comes after that drop)
+                for k2, cl2 in sess.clients.items():
+                    if cl2.open and not cl2.eof and cl2.conn is not None:
+                        r2 = cl2.call("ping")
+                        if r2 != "pong":
+                            return (where + "client %d, connected while client %s's on_disconnect was running, got %r"
+                                    % (k2, tok[1:], r2)), "C17:pool:fd-reuse-drops-newcomer"
+            if t == "m" and obs == "done":
+                armed.add(int(tok[1:]))
+            if t in "gaz" and int(tok[1:]) in armed:
+                in_hook.add(int(tok[1:]))      # its entry stays until the hook returns: judged at `h`
+                continue
+            if t == "h":
+                in_hook.discard(int(tok[1:]))
+            if (t in "gazh" and not in_hook) or (t == "c" and tok[-2:] in (":b", ":r") and not in_hook):
                 # a client has left (or was rejected): within the ceiling nothing refers to it any more
                 k = int(tok[1:].split(":")[0])
                 cl = sess.clients.get(k)
@@ -334,7 +357,7 @@ def oracle_case(case, known=(), ceiling=servers.CEILING):
                     if kind == "pool" and t == "c" and s["c"] > live():
                         sig = "C17:pool:authfail-leaves-clients-entry"
                     return (where + "with %d client(s) still connected the server holds %r" % (live(), s)), sig
-                if cl is not None and t in "gaz":
+                if cl is not None and t in "gazh":
                     def hook_ok():
                         h = _hooks(sess).get(cl.peer)
                         return h is None or h["d"] == h["c"]
@@ -399,7 +422,11 @@ def oracle_search(ctx, corr, broken):
     def candidates():
         for d in corr.disagreements[:20]:
             yield d["case"]
-        for case in corpus():
+        cases = corpus()
+        if any("spares_newcomer" in b for b in broken):
+            # the obligation about reused descriptor numbers: its scenarios first
+            cases.sort(key=lambda c: 0 if any(t[0] == "h" for t in c["ops"]) else 1)
+        for case in cases:
             yield case
         while True:
             yield gen_case(r)
